@@ -30,6 +30,20 @@ using vf::TMO;
 using TCM2 = vf::Tracked<vf::kCopyMove, 1>;
 using PairII = etl::pair<int, int>; // same payload type on both sides: only the owner differs
 
+// string-like payload: non-trivial special members through a std::string member, ordered, implicitly made from int
+struct StrLike {
+    std::string s;
+    StrLike() = default;
+    StrLike(int v) : s(static_cast<std::size_t>(v >= 0 && v < 8 ? v + 1 : 9), static_cast<char>('a' + (v >= 0 && v < 8 ? v : 8))) { } // NOLINT implicit on purpose
+    friend bool operator==(StrLike const& a, StrLike const& b) { return a.s == b.s; }
+    friend bool operator!=(StrLike const& a, StrLike const& b) { return a.s != b.s; }
+    friend bool operator<(StrLike const& a, StrLike const& b) { return a.s < b.s; }
+    friend bool operator<=(StrLike const& a, StrLike const& b) { return a.s <= b.s; }
+    friend bool operator>(StrLike const& a, StrLike const& b) { return a.s > b.s; }
+    friend bool operator>=(StrLike const& a, StrLike const& b) { return a.s >= b.s; }
+};
+static_assert(std::is_nothrow_move_constructible_v<StrLike>);
+
 // ---------------------------------------------------------------- value encoding (payload -> integer)
 inline long long enc(int x) { return x; }
 inline long long enc(long x) { return x; }
@@ -43,6 +57,7 @@ inline long long enc(vf::Tracked<P, F> const& t)
     return t.value();
 }
 inline long long enc(PairII const& p) { return p.first * 16 + p.second; }
+inline long long enc(StrLike const& x) { return x.s.empty() ? -1 : (long long)(x.s[0] - 'a'); } // empty = moved-from / default
 
 // payload of type T carrying value code v (0..2); arg(v) is what is handed to emplace / in_place constructors
 template <typename T>
@@ -56,6 +71,12 @@ struct Make<char> {
     static char of(int v) { return (char)v; }
     static int arg(int v) { return v; }
     static char from_enc(long long e) { return (char)(e - 1000); }
+};
+template <>
+struct Make<StrLike> {
+    static StrLike of(int v) { return StrLike(v); }
+    static int arg(int v) { return v; }
+    static StrLike from_enc(long long e) { return e < 0 ? StrLike() : StrLike((int)e); }
 };
 template <>
 struct Make<PairII> {
@@ -80,6 +101,8 @@ constexpr int tid()
         return 4;
     } else if constexpr (std::is_same_v<T, TMO>) {
         return 5;
+    } else if constexpr (std::is_same_v<T, StrLike>) {
+        return 6;
     } else {
         return 9;
     }
